@@ -255,7 +255,7 @@ impl Property for C10 {
     type Case = Case;
     const ID: &'static str = "C10";
     fn cases(tier: Tier) -> u64 {
-        tier.pick(40_000, 3_000_000)
+        tier.pick(200_000, 4_000_000)
     }
     fn strategy(tier: Tier) -> BoxedStrategy<Case> {
         prop_oneof![
